@@ -28,6 +28,41 @@ thread_local! {
     static FAIL_AT: RefCell<u32> = const { RefCell::new(0) };
 }
 
+thread_local! {
+    /// handle mode: `serialize` hands out an opaque handle (NOT the private scalar) and
+    /// `deserialize` resolves handles through this table, like an HSM slot id would
+    static HANDLE_MODE: RefCell<bool> = const { RefCell::new(false) };
+    static HANDLES: RefCell<Vec<(Vec<u8>, Vec<u8>)>> = const { RefCell::new(Vec::new()) };
+}
+
+pub fn set_handle_mode(on: bool) {
+    HANDLE_MODE.with(|h| *h.borrow_mut() = on);
+    if !on {
+        HANDLES.with(|t| t.borrow_mut().clear());
+    }
+}
+fn handle_mode() -> bool {
+    HANDLE_MODE.with(|h| *h.borrow())
+}
+/// a handle has the length of a private key and is itself a plausible key encoding
+/// (one middle bit differs), so code that wrongly treats it as the scalar does not
+/// fail but computes with another key
+fn handle_of(sk: &[u8]) -> Vec<u8> {
+    let mut h = sk.to_vec();
+    let i = h.len() / 2;
+    h[i] ^= 0x10;
+    HANDLES.with(|t| {
+        let mut t = t.borrow_mut();
+        if !t.iter().any(|(k, _)| *k == h) {
+            t.push((h.clone(), sk.to_vec()));
+        }
+    });
+    h
+}
+fn resolve(handle: &[u8]) -> Option<Vec<u8>> {
+    HANDLES.with(|t| t.borrow().iter().find(|(k, _)| k == handle).map(|(_, v)| v.clone()))
+}
+
 pub fn reset(fail_at: u32) {
     CALLS.with(|c| c.borrow_mut().clear());
     FAIL_AT.with(|f| *f.borrow_mut() = fail_at);
@@ -102,11 +137,24 @@ impl<KG: KeGroup> SecretKey<KG> for RemoteKey<KG> {
 
     fn serialize(&self) -> GenericArray<u8, Self::Len> {
         CALLS.with(|c| c.borrow_mut().push(RemoteCall::Serialize));
-        self.inner.serialize()
+        let raw = self.inner.serialize();
+        if handle_mode() {
+            GenericArray::clone_from_slice(&handle_of(&raw))
+        } else {
+            raw
+        }
     }
 
     fn deserialize(input: &[u8]) -> Result<Self, InternalError<Self::Error>> {
         enter::<RemoteErr>(RemoteCall::Deserialize(input.to_vec()))?;
+        if handle_mode() {
+            let Some(sk) = resolve(input) else {
+                return Err(InternalError::Custom(RemoteErr(0xDEAD)));
+            };
+            return PrivateKey::<KG>::deserialize(&sk)
+                .map(RemoteKey::new)
+                .map_err(|e| e.into_custom::<RemoteErr>());
+        }
         PrivateKey::<KG>::deserialize(input)
             .map(RemoteKey::new)
             .map_err(|e| e.into_custom::<RemoteErr>())
